@@ -27,8 +27,10 @@ import (
 	"io"
 	"math/big"
 	"net"
+	"context"
 	"strings"
 	"sync"
+	"sync/atomic"
 	"syscall"
 	"time"
 
@@ -95,6 +97,20 @@ func c14frame(b []byte) []byte {
 	copy(o[2:], b)
 	return o
 }
+
+// waits for wg at most d
+func c14waitTimeout(wg *sync.WaitGroup, d time.Duration) bool {
+	done := make(chan struct{})
+	go func() { wg.Wait(); close(done) }()
+	select {
+	case <-done:
+		return true
+	case <-time.After(d):
+		return false
+	}
+}
+
+const c14Hard = 1500 * time.Millisecond // how long beyond deadline + slack the harness keeps waiting
 
 func c14timeClass(el time.Duration, dlMs int) string {
 	dl := time.Duration(dlMs) * time.Millisecond
@@ -196,15 +212,59 @@ func (b *c14blackhole) close() {
 	syscall.Close(b.fd)
 }
 
-// an address on which nothing listens
-func c14closedAddr() string {
-	l, err := net.Listen("tcp", "127.0.0.1:0")
-	if err != nil {
-		panic(err)
+// ---- ports. Cases run in parallel and several of them need an address on which nothing listens
+// (any more). A port the kernel hands out for ":0" can be handed out again — to another case —
+// as soon as it is closed, so all servers here listen on explicit ports BELOW the ephemeral range,
+// taken from one counter: a port that was closed is not given to anybody else for a long while.
+
+var c14portCtr atomic.Uint32
+
+func init() { c14portCtr.Store(uint32(time.Now().UnixNano()>>12) % 20000) }
+
+func c14nextPort() int { return 10000 + int(c14portCtr.Add(1)%20000) }
+
+func c14listenTCP(lc *net.ListenConfig) net.Listener {
+	if lc == nil {
+		lc = &net.ListenConfig{}
 	}
-	a := l.Addr().String()
-	l.Close()
-	return a
+	var err error
+	for i := 0; i < 200; i++ {
+		var l net.Listener
+		if l, err = lc.Listen(context.Background(), "tcp", fmt.Sprintf("127.0.0.1:%d", c14nextPort())); err == nil {
+			return l
+		}
+	}
+	panic(err)
+}
+
+func c14listenUDP() *net.UDPConn {
+	var err error
+	for i := 0; i < 200; i++ {
+		var pc *net.UDPConn
+		if pc, err = net.ListenUDP("udp", &net.UDPAddr{IP: net.IPv4(127, 0, 0, 1), Port: c14nextPort()}); err == nil {
+			return pc
+		}
+	}
+	panic(err)
+}
+
+// an address on which nothing listens, neither on tcp nor on udp
+func c14closedAddr() string {
+	for i := 0; i < 200; i++ {
+		p := c14nextPort()
+		l, err := net.Listen("tcp", fmt.Sprintf("127.0.0.1:%d", p))
+		if err != nil {
+			continue
+		}
+		pc, err := net.ListenUDP("udp", &net.UDPAddr{IP: net.IPv4(127, 0, 0, 1), Port: p})
+		l.Close()
+		if err != nil {
+			continue
+		}
+		pc.Close()
+		return fmt.Sprintf("127.0.0.1:%d", p)
+	}
+	panic("no free port")
 }
 
 // ---- scripted stream server
@@ -232,8 +292,11 @@ type c14srv struct {
 	ln      net.Listener
 	tlsCfg  *tls.Config
 	rawMode string   // behaviour right after accept: "" | sil | gar | fin | rst
-	script  []string // behaviours for the successive victim queries
-	vi      int
+	// behaviours for the successive victim queries that arrive on a connection which has carried a
+	// query before (a pooled connection) / on a new connection (a freshly dialled one)
+	pscript []string
+	fscript []string
+	pi, fi  int
 	// waiters scenario: the connection that has carried killAfterHolds hold queries is killed
 	// (killHow); from then on hold queries are answered if answerAfterKill
 	answerHolds     bool
@@ -253,10 +316,7 @@ type c14srv struct {
 }
 
 func c14newSrv(tlsCfg *tls.Config) *c14srv {
-	ln, err := net.Listen("tcp", "127.0.0.1:0")
-	if err != nil {
-		panic(err)
-	}
+	ln := c14listenTCP(nil)
 	s := &c14srv{ln: ln, tlsCfg: tlsCfg, seen: map[string]*c14sconn{}, nseen: map[string]int{}}
 	s.cv = sync.NewCond(&s.mu)
 	go s.acceptLoop()
@@ -396,6 +456,7 @@ func (s *c14srv) serve(sc *c14sconn, mode string) {
 		}
 		role, n := c14role(q)
 		s.mu.Lock()
+		firstOnConn := len(sc.roles) == 0
 		s.seen[fmt.Sprintf("%s%d", role, n)] = sc
 		s.nseen[role]++
 		sc.roles[role] = true
@@ -403,10 +464,17 @@ func (s *c14srv) serve(sc *c14sconn, mode string) {
 		switch role {
 		case "victim":
 			beh = "ok"
-			if s.vi < len(s.script) {
-				beh = s.script[s.vi]
+			if firstOnConn {
+				if s.fi < len(s.fscript) {
+					beh = s.fscript[s.fi]
+				}
+				s.fi++
+			} else {
+				if s.pi < len(s.pscript) {
+					beh = s.pscript[s.pi]
+				}
+				s.pi++
 			}
-			s.vi++
 		case "plain":
 			beh = "ok"
 		case "setup", "fill":
@@ -510,9 +578,20 @@ func (s *c14srv) closeServed(role string, n int) int {
 	return len(l)
 }
 
+// setScript takes the script's tokens: p-tokens (but `pidle`) are what happens to the victim's
+// successive queries on pooled connections, f-tokens on fresh ones
 func (s *c14srv) setScript(script []string) {
 	s.mu.Lock()
-	s.script, s.vi = script, 0
+	s.pscript, s.fscript, s.pi, s.fi = nil, nil, 0, 0
+	for _, t := range script {
+		switch {
+		case t == "pidle" || t[0] == 'g':
+		case t[0] == 'p':
+			s.pscript = append(s.pscript, t[1:])
+		case t[0] == 'f':
+			s.fscript = append(s.fscript, t[1:])
+		}
+	}
 	s.mu.Unlock()
 }
 
